@@ -3286,14 +3286,20 @@ func (c *current) onEnum1(name, values, annotations interface{}) (interface{}, e
 	}
 	// A value without an explicit number is the previous value plus one (the
 	// first is 0) and an explicit number is kept as written, as in Apache Thrift.
-	next := 0
+	// The value after the largest integer does not exist: it is an error, not
+	// the smallest integer.
+	next, overflow := 0, false
 	for idx, v := range vs {
 		pair := v.([]interface{})[0].([]interface{})
 		ev := pair[0].(*EnumValue)
 		if explicit := pair[1].(bool); !explicit {
+			if overflow {
+				return nil, fmt.Errorf("parser: enum %s: no value left for %s after %d", en.Name, ev.Name, en.Values[idx-1].Value)
+			}
 			ev.Value = next
 		}
 		next = ev.Value + 1
+		overflow = next < ev.Value
 		en.Values[idx] = ev
 	}
 	return en, nil
